@@ -245,7 +245,10 @@ theorem lib_readLit_escape (s rest : List Nat) :
       · by_cases h41 : x = 41
         · subst h41
           simp [escapePdfString, Lexer.readLit, Lexer.consOut, Lexer.isOctal, ih]
-        · simp [escapePdfString, Lexer.readLit, Lexer.consOut, h92, h40, h41, ih]
+        · by_cases h13 : x = 13
+          · subst h13
+            simp [escapePdfString, Lexer.readLit, Lexer.consOut, Lexer.isOctal, ih]
+          · simp [escapePdfString, Lexer.readLit, Lexer.consOut, h92, h40, h41, h13, ih]
 
 theorem lib_next_str (s rest : List Nat) :
     Lexer.next (40 :: (escapePdfString s ++ [41]) ++ rest) = .ok (.str s, rest) := by
